@@ -133,7 +133,9 @@ func (evt *startEvent) NextAction(ctx context.Context, flow Flow) chan IAction {
 		go evt.run(ctx, sender)
 	})
 
-	response := make(chan IAction)
+	// buffered: exactly one action is ever sent per request, and the flow may
+	// be gone by then (cancellation); the node must not block handing it over
+	response := make(chan IAction, 1)
 	evt.mch <- nextActionMessage{response: response, flow: flow}
 	return response
 }
